@@ -420,6 +420,57 @@ def probe_match2ref(ctx, case):
             ok = ok and masked
     if not ok:
         ctx.oracle_fail(case, {'what': "column 'matched_ref_id' does not record the true correspondences"})
+        return
+    # ---- the same group matched AGAIN, to a reduced reference catalog with other ids and another row
+    # order: the bookkeeping of the first pass must not survive (sources that lost their counterpart are
+    # unmatched now)
+    rr = __import__('random').Random(int(abs(xo) * 1e6) + len(truth))
+    keep = [k for k in range(len(refxy)) if rr.random() < 0.6]
+    if len(keep) < 1:
+        keep = [truth[0][0]]
+    rr.shuffle(keep)
+    ids2 = [1000 + 7 * k for k in range(len(keep))]
+    try:
+        ref2 = wcsimage.RefCatalog(Table([np.asarray(ra)[keep], np.asarray(dec)[keep], ids2], names=('RA', 'DEC', 'id')))
+        ref2.calc_tanp_xy(tanplane_wcs=corr)
+        n2, ri2, ii2 = grp.match2ref(ref2, match=matcher)
+    except Exception as e:
+        ctx.oracle_fail(case, {'what': 'second match2ref of the same group raised', 'got': '%s: %s' % (type(e).__name__, e)})
+        return
+    ctx.branch('match2ref:second-pass')
+    truth2 = sorted((keep.index(i), j) for i, j in truth if i in keep)
+    got2 = sorted(zip([int(v) for v in ri2], [int(v) for v in ii2]))
+    if n2 != len(truth2) or got2 != truth2:
+        ctx.oracle_fail(case, {'what': 'second match2ref of the same group (reduced reference) did not return exactly '
+                                       'the true correspondences', 'nmatches': int(n2), 'n_true': len(truth2),
+                               'missing': sorted(set(truth2) - set(got2))[:10], 'false': sorted(set(got2) - set(truth2))[:10]})
+        return
+    col = grp.catalog['matched_ref_id']
+    raw = grp.catalog['_raw_matched_ref_idx']
+    tmap2 = {j: i for i, j in truth2}
+    bad = None
+    for j in range(len(imxy)):
+        m1 = bool(np.ma.getmaskarray(col)[j])
+        m2 = bool(np.ma.getmaskarray(raw)[j])
+        if j in tmap2:
+            if m1 or int(col[j]) != ids2[tmap2[j]]:
+                bad = ('matched_ref_id', j)
+            if m2 or int(raw[j]) != tmap2[j]:
+                bad = bad or ('_raw_matched_ref_idx', j)
+        elif not m1 or not m2:
+            bad = bad or ('matched_ref_id' if not m1 else '_raw_matched_ref_idx', j)
+    if bad:
+        ctx.oracle_fail(case, {'what': "after a second match the bookkeeping column '%s' still carries the first pass "
+                                       "(row %d)" % bad, 'matched_now': len(truth2), 'matched_before': len(truth)})
+        return
+    try:
+        nm, nu = len(grp.get_matched_cat()), len(grp.get_unmatched_cat())
+    except Exception as e:
+        ctx.oracle_fail(case, {'what': 'get_matched_cat / get_unmatched_cat raised', 'got': repr(e)[:120]})
+        return
+    if nm != len(truth2) or nu != len(imxy) - len(truth2):
+        ctx.oracle_fail(case, {'what': 'get_matched_cat / get_unmatched_cat do not split the catalog by the last match',
+                               'matched': nm, 'unmatched': nu, 'true_matched': len(truth2), 'sources': len(imxy)})
 
 
 def run_match2ref(ctx):
